@@ -172,14 +172,61 @@ def flatten_bitview(bitfun_py):
     return [mkfn('bitview_setitem', ['data', 'begin', 'length', 'start', 'stop', 'value'], st)]
 
 
+def flatten_setbit(token_py):
+    """wave 5: the int-key branch of Token.__setitem__ (`self.set_bit(key, value)`) and Token.set_bit.
+    `value = bool(value)` followed by `if value:` becomes `if value != 0:` on the int parameter (bool(v) is v != 0 for
+    every Python int, bools included); self.bit_value -> parameter/return value, self.Info.size -> parameter size."""
+    tree = ast.parse(open(token_py).read())
+    Token = find_class(tree, 'Token')
+    s_ = find_def(Token.body, '__setitem__')
+    body = strip_doc(s_.body)
+    expect(len(body) == 1 and isinstance(body[0], ast.If), '__setitem__ body is one if-chain')
+    node, found = body[0], False
+    while True:
+        if src(node.test) in ('isinstance(key, int)', 'type(key) is int'):
+            expect(len(node.body) == 1 and src(node.body[0]) == 'self.set_bit(key, value)', 'int branch is self.set_bit(key, value)')
+            found = True
+            break
+        if len(node.orelse) == 1 and isinstance(node.orelse[0], ast.If):
+            node = node.orelse[0]
+        else:
+            break
+    expect(found, '__setitem__ has an int-key branch')
+    f = find_def(Token.body, 'set_bit')
+    expect([a.arg for a in f.args.args] == ['self', 'i', 'value'], 'set_bit(self, i, value)')
+    st = copy.deepcopy(strip_doc(f.body))
+    expect(st and src(st[0]) == 'value = bool(value)', 'set_bit starts with value = bool(value)')
+    st = st[1:]
+    sub = Subst({'self.bit_value': 'bit_value', 'self.Info.size': 'size'}, {'self'})
+    st = [sub.visit(x) for x in st]; sub.check(st)
+    n_if = 0
+    for x in st:
+        for y in ast.walk(x):
+            if isinstance(y, ast.If):
+                expect(src(y.test) == 'value', 'set_bit branches on `value` itself')
+                y.test = ast.parse('value != 0', mode='eval').body
+                n_if += 1
+    expect(n_if == 1, 'set_bit has exactly one `if value:`')
+    for x in st:
+        for y in ast.walk(x):
+            if isinstance(y, ast.Name) and y.id == 'value' and not isinstance(getattr(y, 'ctx', None), ast.Load):
+                raise U('set_bit assigns value again')
+    uses = sum(1 for x in st for y in ast.walk(x) if isinstance(y, ast.Name) and y.id == 'value')
+    expect(uses == 1, 'value is used only in the `if value:` test')
+    st.append(ast.parse('return bit_value').body[0])
+    return [mkfn('tok_setbit', ['size', 'bit_value', 'i', 'value'], st)]
+
+
 ENTRIES = [{'name': 'tok_getitem'}, {'name': 'tok_setitem'}, {'name': 'range_get'}, {'name': 'range_set'},
            {'name': 'concat_get', 'params': {'bs': 'list', 'es': 'list'}},
            {'name': 'concat_set', 'params': {'bs': 'list', 'es': 'list'}},
-           {'name': 'bitview_setitem', 'params': {'data': 'bytes'}}]
+           {'name': 'bitview_setitem', 'params': {'data': 'bytes'}},
+           {'name': 'tok_setbit'}]
 
 
 def flat_source(repo):
     import os
     fns = flatten_token(os.path.join(repo, 'ppci/arch/token.py')) + \
-        flatten_bitview(os.path.join(repo, 'ppci/utils/bitfun.py'))
+        flatten_bitview(os.path.join(repo, 'ppci/utils/bitfun.py')) + \
+        flatten_setbit(os.path.join(repo, 'ppci/arch/token.py'))
     return '\n\n'.join(src(f) for f in fns) + '\n'
